@@ -263,10 +263,16 @@ impl PackageSpecifiers {
     nv: &PackageNv,
     dep: JsrDepPackageReq,
   ) {
+    // the package may not be known yet: a loader that follows redirects
+    // itself can answer a URL outside the registry with a module whose
+    // final specifier is a package file
     self
       .packages
-      .get_mut(nv)
-      .unwrap()
+      .entry(nv.clone())
+      .or_insert_with(|| PackageNvInfo {
+        exports: Default::default(),
+        found_dependencies: Default::default(),
+      })
       .found_dependencies
       .insert(dep);
   }
